@@ -46,7 +46,7 @@ def mc_case(draw, sub, tier="quick"):
             return seq, qual
         w = min(len(seq), 10)
         p = (i * 7) % w if (i // 3) % 2 == 0 else len(seq) - 1 - (i * 7) % w
-        c = "ACGT"[(i // 3) % 4]
+        c = "ACGTN"[(i // 3) % 5]
         kind = (i // 9) % 3
         if kind == 0:
             return seq[:p] + c + seq[p + 1:], qual
@@ -110,6 +110,8 @@ def mc_case(draw, sub, tier="quick"):
         o["cut2"] = [draw(st.sampled_from([1, -2, 3]))]
     if sc["paired"] and draw(st.integers(0, 7)) == 0:
         o["length2_arg"] = draw(st.sampled_from([4, 9]))
+    if draw(st.integers(0, 3)) == 0:
+        sc["glob"]["no_index"] = False  # several anchored adapters then go through an index, in every process its own
     if not sc["f"].get("demux") and (not sc["paired"] or sc["out"].get("interleaved_out")) and not sc.get("extra") \
             and not sc.get("side") and draw(st.integers(0, 4)) == 0:
         sc["stdout"] = draw(st.sampled_from(["plain", "fasta"]))
